@@ -30,14 +30,14 @@ ORecFinal(cs) ==
     acceptAt |-> cs.acceptAt, closeAt |-> cs.closeAt, cfinAt |-> cs.cfinAt, preDoneAt |-> cs.preDoneAt, addrDoneAt |-> cs.addrDoneAt, stalls |-> ToSet(cs.stallKinds), handlerDone |-> cs.handled, cancelled |-> cs.cancelled,
     lastSendAt |-> cs.lastSendAt, tfinPolite |-> cs.tfinPolite, drain |-> cs.drain, timeout |-> cs.timeoutMs,
     afterClose |-> cs.afterClose,
-    wire |-> [cs |-> cs.wcs, tr |-> cs.wtr, ts |-> cs.wts, cr |-> cs.wcr, cpl |-> cs.wcpl] ]
+    wire |-> [cs |-> cs.wcs, tr |-> cs.wtr, ts |-> cs.wts, cr |-> cs.wcr, cpl |-> cs.wcpl, pt |-> cs.wpt, pc |-> cs.wpc] ]
 ORecSnap(cs, sn) ==
   [ csent |-> SubSeq(cs.csent, 1, sn.ncs), tsent |-> sn.nts,
     tlog |-> SubSeq(cs.tlog, 1, sn.tl), clog |-> SubSeq(cs.clog, 1, sn.cl), mlog |-> SubSeq(cs.mlog, 1, sn.ml),
     dials |-> sn.dl, acceptAt |-> IF sn.ml > 0 THEN cs.acceptAt ELSE -1, closeAt |-> sn.closeAt, cfinAt |-> sn.cfinAt,
     preDoneAt |-> sn.preDoneAt, addrDoneAt |-> sn.addrDoneAt, stalls |-> ToSet(sn.stallKinds), handlerDone |-> FALSE, cancelled |-> sn.cancelled, lastSendAt |-> sn.lastSendAt, tfinPolite |-> sn.tfinPolite, drain |-> "",
     timeout |-> cs.timeoutMs, afterClose |-> sn.afterClose,
-    wire |-> [cs |-> sn.wcs, tr |-> sn.wtr, ts |-> sn.wts, cr |-> sn.wcr, cpl |-> sn.wcpl] ]
+    wire |-> [cs |-> sn.wcs, tr |-> sn.wtr, ts |-> sn.wts, cr |-> sn.wcr, cpl |-> sn.wcpl, pt |-> 0, pc |-> 0] ]
 
 FinalFailing(cs) == Failing(PropsFinal, SRec(cs, cs), ORecFinal(cs))
 SnapFailing(cs, i) == LET sn == cs.snaps[i] IN Failing(PropsAny, SRec(cs, sn), ORecSnap(cs, sn))
